@@ -4,6 +4,12 @@ NOTES = ("All checks: bin/check <ID> --tier quick|thorough. Exit 0 held / 1 VIOL
          "Specification in spec/, harness in harness/, known findings in known_findings.jsonl; see DESIGN.md.")
 NOT_APPLICABLE = {}
 CHECKS = {
+    "C15": {
+        "level": "model_checking",
+        "technique": "TLA+ Color spec over exact rationals (RGB<->HSL<->HWB by the CSS formulas, admissible-value sets at .5 channel boundaries, the colour functions by definition; TLC checks the HSL round trip on every generated colour) and an independent CSS named-colour table (ColorNames); TLC enumerates colour x function x parameter (MC_Color); grass evaluates each through red()/green()/blue()/alpha(); all 148 names and the short-hex cube are compared across 4-5 spellings for equality and identical compressed printing",
+        "text": "Channels stay in [0,255] and alpha in [0,1] for every case; exact-HSL spelling of a lattice colour gives the colour back; adjust-hue for positive, negative and > 360 degree angles, lighten/darken/saturate/desaturate incl. 0 and 100 %, grayscale, complement (once/twice), invert (once/twice), mix at 0/25/50/100 %, color.hwb(), opacify/transparentize/fade-in and adjust-/change-/scale-color alpha arithmetic with clamping (alone and combined with an HSL adjustment), out-of-range constructor arguments.",
+        "note": "Quick tier: 5-level lattice and every 7th short-hex colour (thorough: 9 levels, all 4096); the property's 'all 2^24' is not reached through TLC; floating-point rounding inside grass is only exposed where the exact value decides the channel (both neighbours accepted on exact ties).",
+    },
     "C16": {
         "level": "model_checking",
         "technique": "TLA+ Calc spec: calculation AST, the quantity it denotes over exact rationals under three unit/var() environments (dimension vectors for length/angle/time), static classification (must fold / provably incompatible between numbers / stays a calculation) with TLC checking that a folding expression is environment-free; TLC grows expressions operation by operation (MC_Calc); grass's printed result is parsed back into the AST and TLC (Trace_Calc) requires the same quantity under every environment, a plain number where folding is due and an error where units are provably incompatible",
